@@ -1,0 +1,18 @@
+//go:build verif
+
+package batching
+
+import "reduction.dev/reduction/clocks"
+
+// Accessors for the verification harness (/verif, property C04). Compiled only
+// with -tags verif.
+
+// VerifSetTimer replaces the batcher's timer. Call it before the first Add.
+func (b *EventBatcher[T]) VerifSetTimer(t clocks.Timer) {
+	b.mu.Lock()
+	b.timer = t
+	b.mu.Unlock()
+}
+
+// VerifBatcher exposes the batcher in front of a ReorderFetcher.
+func (d *ReorderFetcher[T, R]) VerifBatcher() *EventBatcher[T] { return d.batcher }
